@@ -473,7 +473,7 @@ macro_rules! k1_harness {
 // K1 against the CONTRACTS of the five Move constructors (C20) instead of their bodies
 k1_harness!(c01_k1_pawn_moves_sound, 8, 1, Half::Sound);
 k1_harness!(c01_k1_pawn_moves_complete, 8, 1, Half::Complete);
-k1_harness!(c01_k1_pawn_moves_sound_8, 10, 8, Half::Sound);
+k1_harness!(c01_k1_pawn_moves_sound_3, 10, 3, Half::Sound);
 k1_harness!(c01_k1_pawn_moves_complete_3, 10, 3, Half::Complete);
 
 #[kani::proof]
